@@ -99,6 +99,10 @@ func (x rnd) Int31() int32         { return int32(x.r.U64() & 0x7fffffff) }
 func (x rnd) Int63() int64         { return int64(x.r.U64() & 0x7fffffffffffffff) }
 func (x rnd) NormFloat64() float64 { return float64(int64(x.r.U64()%2000001)-1000000) / 1024 } // exact dyadic values
 
+// isFactoryItem: enum constructors are represented by the shared factory item itself (metainternal.TLItemImpl, with
+// exported Name/Tag fields) — never touch it through reflection
+func isFactoryItem(v reflect.Value) bool { return v.Type().Name() == "TLItemImpl" }
+
 var strLens = []int{0, 1, 2, 3, 4, 5, 7, 8, 250, 251, 252, 253, 254, 255, 256, 257, 258, 300, 1021}
 
 func specialString(r *verifx.Rng, utf8 bool) []byte {
@@ -132,6 +136,9 @@ func enrich(h *verifx.H, r *verifx.Rng, v reflect.Value, utf8 bool, depth int) {
 			enrich(h, r, v.Elem(), utf8, depth+1)
 		}
 	case reflect.Struct:
+		if isFactoryItem(v) {
+			return
+		}
 		for i := 0; i < v.NumField(); i++ {
 			f := v.Field(i)
 			if f.CanSet() {
@@ -367,6 +374,162 @@ func newRG(h *verifx.H, r *verifx.Rng) *basictl.RandGenerator {
 	})
 }
 
+// fillShaped builds the two ends of a reused-destination sequence: "full" = every declared mask bit set, every vector
+// non-empty, every string non-empty; "empty" = masks cleared, vectors and strings empty; "mix" = independent per field.
+func fillShaped(h *verifx.H, r *verifx.Rng, o verifc14.Obj, shape string) {
+	if f, ok := o.(verifc14.Filler); ok {
+		f.FillRandom(basictl.NewRandGeneratorWithContext(rnd{r}, basictl.RandgeneratorContext{
+			SizeHandler: func(g uint32) uint32 {
+				switch shape {
+				case "fullsmall":
+					return 1
+				case "full":
+					return 1 + uint32(r.Intn(2))
+				case "empty":
+					return 0
+				}
+				return uint32(r.Intn(3))
+			},
+			FieldMaskHandler: func(g uint32, declared uint32) uint32 {
+				switch shape {
+				case "full", "fullsmall":
+					return declared
+				case "empty":
+					return 0
+				}
+				return uint32(r.U64()) & declared
+			},
+		}))
+	} else {
+		reflFill(r, reflect.ValueOf(o), 0)
+	}
+	shapeStrings(r, reflect.ValueOf(o), shape, 0)
+}
+
+func shapeStrings(r *verifx.Rng, v reflect.Value, shape string, depth int) {
+	if depth > 12 {
+		return
+	}
+	content := func(old int) ([]byte, bool) { // new content, changed?
+		switch {
+		case shape == "fullsmall":
+			return []byte{byte('a' + r.Intn(26))}, true
+		case shape == "full" && old == 0, shape == "mix" && old == 0 && r.Bool():
+			b := make([]byte, r.Range(1, 40))
+			for i := range b {
+				b[i] = byte('a' + r.Intn(26))
+			}
+			return b, true
+		case shape == "empty" && old > 0, shape == "mix" && old > 0 && r.Bool():
+			return []byte{}, true
+		}
+		return nil, false
+	}
+	switch v.Kind() {
+	case reflect.Ptr:
+		if !v.IsNil() {
+			shapeStrings(r, v.Elem(), shape, depth+1)
+		}
+	case reflect.Struct:
+		if isFactoryItem(v) {
+			return
+		}
+		for i := 0; i < v.NumField(); i++ {
+			if f := v.Field(i); f.CanSet() {
+				shapeStrings(r, f, shape, depth+1)
+			}
+		}
+	case reflect.Array:
+		for i := 0; i < v.Len(); i++ {
+			shapeStrings(r, v.Index(i), shape, depth+1)
+		}
+	case reflect.Slice:
+		if v.Type().Elem().Kind() == reflect.Uint8 {
+			if b, ch := content(v.Len()); ch {
+				v.SetBytes(b)
+			}
+			return
+		}
+		for i := 0; i < v.Len(); i++ {
+			shapeStrings(r, v.Index(i), shape, depth+1)
+		}
+	case reflect.String:
+		if b, ch := content(v.Len()); ch {
+			v.SetString(string(b))
+		}
+	}
+}
+
+// reusedDestination: read value A (fully populated) and then value B (empty / mixed) of the same type into the SAME
+// object, for the string and the []byte variant, TL1 and TL2; the object must end up equal to one that read only B.
+// Returns the bytes of A and B for the correspondence ops.
+func (c *ctx) reusedDestination(it verifc14.Item, r *verifx.Rng, key string) (bA, bB []byte) {
+	h := c.h
+	shapeB := []string{"empty", "mix", "mix"}[r.Intn(3)]
+	a, bsrc := it.New(), it.New()
+	fillShaped(h, r, a, "full")
+	fillShaped(h, r, bsrc, shapeB)
+	var err error
+	if bA, err = writeBare(a); err != nil {
+		return nil, nil
+	}
+	if bB, err = writeBare(bsrc); err != nil {
+		return nil, nil
+	}
+	h.Stat("reused.sequences", 1)
+	h.Stat("reused.shape."+shapeB, 1)
+	variants := []struct {
+		name string
+		mk   func() verifc14.Obj
+	}{{"string", it.New}, {"bytes", it.NewBytes}}
+	for _, vr := range variants {
+		o, fresh := vr.mk(), vr.mk()
+		if _, err := readTL1(o, false, bA); err != nil {
+			continue // not a reuse problem; the round-trip oracle reports it
+		}
+		if _, err := readTL1(fresh, false, bB); err != nil {
+			continue
+		}
+		if _, err := readTL1(o, false, bB); err != nil {
+			h.Viol("tl1-reused-read:"+vr.name+":"+key, "reading B into an object that held A failed: %v (A=%s B=%s)", err, short(bA), short(bB))
+			continue
+		}
+		if re, err := writeBare(o); err != nil || !sameBytes(re, bB) {
+			h.Viol("tl1-reused-bytes:"+vr.name+":"+key, "object that read A then B encodes as %s, not as B=%s (A=%s) (%v)", short(re), short(bB), short(bA), err)
+		}
+		if where := diffVal(reflect.ValueOf(fresh), reflect.ValueOf(o), "v"); where != "" {
+			h.Viol("tl1-reused-state:"+vr.name+":"+key, "object that read A then B differs from one that read only B at %s (A=%s B=%s)", where, short(bA), short(bB))
+		}
+	}
+	if it.HasTL2 {
+		tA, e1 := writeTL2(a)
+		tB, e2 := writeTL2(bsrc)
+		if e1 == nil && e2 == nil {
+			h.Stat("reused.tl2", 1)
+			for _, vr := range variants {
+				o, fresh := vr.mk(), vr.mk()
+				if _, err := readTL2(o, tA); err != nil {
+					continue
+				}
+				if _, err := readTL2(fresh, tB); err != nil {
+					continue
+				}
+				if _, err := readTL2(o, tB); err != nil {
+					h.Viol("tl2-reused-read:"+vr.name+":"+key, "reading TL2 B into an object that held A failed: %v", err)
+					continue
+				}
+				if re, err := writeBare(o); err != nil || !sameBytes(re, bB) {
+					h.Viol("tl2-reused-bytes:"+vr.name+":"+key, "object that read TL2 A then B encodes as %s, not as B=%s (%v)", short(re), short(bB), err)
+				}
+				if where := diffVal(reflect.ValueOf(fresh), reflect.ValueOf(o), "v"); where != "" {
+					h.Viol("tl2-reused-state:"+vr.name+":"+key, "object that read TL2 A then B differs from one that read only B at %s", where)
+				}
+			}
+		}
+	}
+	return bA, bB
+}
+
 func reflFill(r *verifx.Rng, v reflect.Value, depth int) {
 	switch v.Kind() {
 	case reflect.Ptr:
@@ -374,6 +537,9 @@ func reflFill(r *verifx.Rng, v reflect.Value, depth int) {
 			reflFill(r, v.Elem(), depth+1)
 		}
 	case reflect.Struct:
+		if isFactoryItem(v) {
+			return
+		}
 		for i := 0; i < v.NumField(); i++ {
 			if f := v.Field(i); f.CanSet() {
 				reflFill(r, f, depth+1)
@@ -539,6 +705,8 @@ func (c *ctx) tlCase(it verifc14.Item, r *verifx.Rng) {
 			}
 		}
 	}
+	// (2b) the systematic version: fully populated A, then empty / mixed B, into the same string- and []byte-variant object
+	reuseA, reuseB := c.reusedDestination(it, r, key)
 	// (3) JSON
 	var j []byte
 	if utf8 {
@@ -658,6 +826,20 @@ func (c *ctx) tlCase(it verifc14.Item, r *verifx.Rng) {
 	}
 	op(false, append(append([]byte{}, b...), tail...))
 	op(true, append(append([]byte{}, bb...), tail...))
+	// the same kind of op, but the real reader fills an object that has just read the fully populated value A: the model
+	// (a function of the bytes) must still agree — reading never depends on what the destination held before
+	if reuseB != nil && len(reuseA) < 6000 && len(reuseB) < 6000 {
+		for _, mk := range []func() verifc14.Obj{it.New, it.NewBytes} {
+			o := mk()
+			if _, err := readTL1(o, false, reuseA); err != nil {
+				continue
+			}
+			in := append(append([]byte{}, reuseB...), tail...)
+			h.Op("dec %s bare %s", key, verifx.Hex(in))
+			h.Obs("%s", decObsOf(o, false, in))
+			h.Stat("tl.reused-object-ops", 1)
+		}
+	}
 	// truncations: every strict prefix must be rejected by both
 	if len(b) > 0 {
 		k := r.Intn(len(b))
@@ -904,6 +1086,237 @@ func (c *ctx) frameCase(r *verifx.Rng, big bool, bigIdx int) {
 	}
 }
 
+// ---------------------------------------------------------------- TL2 size codec, strings, bodies at the form boundaries
+
+var sizeBoundaries = []int{0, 1, 2, 127, 128, 252, 253, 254, 255, 256, 257, 509, 510, 65535, 65536, 65787, 65788, 65789, 65790, 65791, 65792,
+	65793, 1<<24 - 1, 1 << 24, 1<<24 + 1, 1<<32 - 1, 1 << 32, 1<<32 + 1, 1<<56 - 1, 1 << 56, math.MaxInt64 - 1, math.MaxInt64}
+var strBoundaries = []int{0, 1, 253, 254, 255, 256, 65789, 65790, 65791, 65792}
+
+// ownHeaderLen: length of a TL2 size header judged by its first byte only (independent of the size codec under test)
+func ownHeaderLen(b0 byte) int {
+	switch {
+	case b0 < 254:
+		return 1
+	case b0 == 254:
+		return 3
+	}
+	return 9
+}
+
+func parseObs(b []byte) string {
+	var rest []byte
+	var n int
+	err := try(func() error { var e error; rest, n, e = basictl.TL2ParseSize(b); return e })
+	if err != nil {
+		if strings.HasPrefix(err.Error(), "panic") {
+			return "panic"
+		}
+		return "err"
+	}
+	return fmt.Sprintf("ok %d rest=%d", n, len(rest))
+}
+
+// planters: every place of a generated value where a string can be put (fields, first elements of vectors, keys and
+// values of string dictionaries), in a fixed order
+func planters(v reflect.Value, depth int, out *[]func(string)) {
+	if depth > 10 {
+		return
+	}
+	switch v.Kind() {
+	case reflect.Ptr:
+		if !v.IsNil() {
+			planters(v.Elem(), depth+1, out)
+		}
+	case reflect.Struct:
+		if isFactoryItem(v) {
+			return
+		}
+		for i := 0; i < v.NumField(); i++ {
+			if f := v.Field(i); f.CanSet() {
+				planters(f, depth+1, out)
+			}
+		}
+	case reflect.String:
+		*out = append(*out, func(s string) { v.SetString(s) })
+	case reflect.Slice:
+		if v.Type().Elem().Kind() == reflect.Uint8 {
+			*out = append(*out, func(s string) { v.SetBytes([]byte(s)) })
+			return
+		}
+		if v.Len() > 0 {
+			planters(v.Index(0), depth+1, out)
+		}
+	case reflect.Map:
+		if v.Type().Key().Kind() == reflect.String && v.Type().Elem().Kind() == reflect.String && v.CanSet() {
+			*out = append(*out, func(s string) {
+				m := reflect.MakeMap(v.Type())
+				m.SetMapIndex(reflect.ValueOf("k").Convert(v.Type().Key()), reflect.ValueOf(s).Convert(v.Type().Elem()))
+				v.Set(m)
+			}, func(s string) {
+				m := reflect.MakeMap(v.Type())
+				m.SetMapIndex(reflect.ValueOf(s).Convert(v.Type().Key()), reflect.ValueOf("v").Convert(v.Type().Elem()))
+				v.Set(m)
+			})
+		}
+	}
+}
+
+func (c *ctx) tl2Case(idx int, r *verifx.Rng, items []verifc14.Item) {
+	h := c.h
+	h.Stat("tl2.cases", 1)
+	// (a) the size codec at and around every form boundary, plus random sizes
+	var sizes []int
+	for k := 0; k < 4; k++ {
+		sizes = append(sizes, sizeBoundaries[(idx*4+k)%len(sizeBoundaries)])
+	}
+	sizes = append(sizes, 1<<uint(r.Intn(40))+r.Intn(1000), 65790+r.Range(-300, 300))
+	for _, n := range sizes {
+		tail := r.Bytes(r.Intn(4))
+		var w []byte
+		buf := make([]byte, 9)
+		var put, calc int
+		err := try(func() error {
+			w = basictl.TL2WriteSize(nil, n)
+			put = basictl.TL2PutSize(buf, n)
+			calc = basictl.TL2CalculateSize(n)
+			return nil
+		})
+		if err != nil {
+			h.Viol("tl2-size-write-panic", "TL2WriteSize(%d): %v", n, err)
+			continue
+		}
+		if !sameBytes(buf[:put], w) || calc != len(w) {
+			h.Viol("tl2-size-forms-disagree", "size %d: TL2WriteSize=%x TL2PutSize=%x TL2CalculateSize=%d", n, w, buf[:put], calc)
+		}
+		po := parseObs(append(append([]byte{}, w...), tail...))
+		if po != fmt.Sprintf("ok %d rest=%d", n, len(tail)) {
+			h.Viol("tl2-size-roundtrip", "size %d written as %x is read back as: %s (expected ok %d rest=%d)", n, w, po, n, len(tail))
+		}
+		h.Op("tl2size %d %s", n, verifx.Hex(tail))
+		h.Obs("%s calc=%d parse=%s", verifx.Hex(w), calc, po)
+		h.Stat("tl2.size-ops", 1)
+	}
+	// (b) arbitrary size headers
+	for k := 0; k < 3; k++ {
+		b := r.Bytes(r.Intn(12))
+		if len(b) > 0 && r.Bool() {
+			b[0] = []byte{253, 254, 255, 255}[r.Intn(4)]
+		}
+		if len(b) == 9 && b[0] == 255 && r.Bool() {
+			b[8] = []byte{0x7f, 0x80, 0xff}[r.Intn(3)] // around MaxInt
+		}
+		h.Op("tl2parse %s", verifx.Hex(b))
+		h.Obs("%s", parseObs(b))
+	}
+	// (c) a string of exactly a boundary length, string and []byte variant, the latter into a used destination
+	{
+		L := strBoundaries[idx%len(strBoundaries)]
+		fillb := byte('a' + r.Intn(26))
+		s := bytes.Repeat([]byte{fillb}, L)
+		tail := r.Bytes(r.Intn(4))
+		w := basictl.StringWriteTL2(nil, string(s))
+		if wb := basictl.StringWriteTL2Bytes(nil, s); !sameBytes(w, wb) {
+			h.Viol("tl2-string-variants", "StringWriteTL2 and StringWriteTL2Bytes differ for length %d: %s vs %s", L, short(w), short(wb))
+		}
+		in := append(append([]byte{}, w...), tail...)
+		var gotS string
+		gotB := []byte("previous content of the destination")
+		rd := "err"
+		rest, err := basictl.StringReadTL2(in, &gotS)
+		if err == nil {
+			rd = fmt.Sprintf("ok len=%d rest=%d same=%v", len(gotS), len(rest), gotS == string(s))
+		}
+		if err != nil || gotS != string(s) || !sameBytes(rest, tail) {
+			h.Viol("tl2-string-roundtrip", "TL2 string of length %d (header %x) reads back as length %d, rest %d of %d (%v)", L, w[:min(9, len(w))], len(gotS), len(rest), len(tail), err)
+		}
+		restB, errB := basictl.StringReadTL2Bytes(in, &gotB)
+		if errB != nil || !sameBytes(gotB, s) || !sameBytes(restB, tail) {
+			h.Viol("tl2-string-roundtrip-bytes", "TL2 []byte string of length %d reads back into a used destination as length %d (%v)", L, len(gotB), errB)
+		}
+		h.Op("tl2str %d %d %s", L, fillb, verifx.Hex(tail))
+		h.Obs("head=%s total=%d read=%s", verifx.Hex(w[:min(12, len(w))]), len(w), rd)
+		h.Stat(fmt.Sprintf("tl2.string-len-%d", L), 1)
+	}
+	// (d) generated TL2 types: sweep the length of one planted string so that the body of every enclosing object /
+	// vector / dictionary passes through each size of a boundary region exactly; round trip every step
+	var tl2Items []verifc14.Item
+	for _, it := range items {
+		if it.HasTL2 {
+			tl2Items = append(tl2Items, it)
+		}
+	}
+	if len(tl2Items) == 0 {
+		return
+	}
+	var it verifc14.Item
+	var v verifc14.Obj
+	var ps []func(string)
+	for k := 0; k < len(tl2Items); k++ { // next TL2 type that has a place for a string
+		it = tl2Items[(idx+k)%len(tl2Items)]
+		v = it.New()
+		fillShaped(h, r, v, "fullsmall")
+		ps = nil
+		planters(reflect.ValueOf(v), 0, &ps)
+		if len(ps) > 0 {
+			break
+		}
+	}
+	if len(ps) == 0 {
+		return
+	}
+	key := it.Schema + "/" + it.Name
+	plant := ps[(idx/len(tl2Items)+idx)%len(ps)]
+	region := []int{254, 65790}[idx%2]
+	h.Stat(fmt.Sprintf("tl2.body-sweep-%d", region), 1)
+	hitTop := 0
+	// everything that encloses the planted string adds at most `over` bytes to it
+	plant("")
+	over := 140
+	if t0, err := writeTL2(v); err == nil {
+		over = min(len(t0)+12, 700)
+	}
+	h.Stat("tl2.body-sweep-steps", int64(over+3))
+	for L := region - over; L <= region+2; L++ {
+		if L < 0 {
+			continue
+		}
+		plant(strings.Repeat("s", L))
+		b, err := writeBare(v)
+		if err != nil {
+			break
+		}
+		t2, err := writeTL2(v)
+		if err != nil {
+			h.Viol("tl2-write:"+key, "WriteTL2 failed with a %d byte string: %v", L, err)
+			break
+		}
+		if len(t2) > 0 && len(t2)-ownHeaderLen(t2[0]) == region {
+			hitTop++
+		}
+		tail := []byte{0xee, byte(L)}
+		for _, mk := range []func() verifc14.Obj{it.New, it.NewBytes} {
+			o := mk()
+			rest, err := readTL2(o, append(append([]byte{}, t2...), tail...))
+			if err != nil {
+				h.Viol("tl2-body-roundtrip:"+key, "TL2 of %d bytes (planted string %d, header %x) cannot be read back: %v", len(t2), L, t2[:min(9, len(t2))], err)
+				break
+			}
+			if re, err := writeBare(o); err != nil || !sameBytes(re, b) || !sameBytes(rest, tail) {
+				h.Viol("tl2-body-roundtrip:"+key, "TL2 of %d bytes (planted string %d, header %x) reads back as another value or leaves %d instead of %d bytes (%v)", len(t2), L, t2[:min(9, len(t2))], len(rest), len(tail), err)
+				break
+			}
+		}
+	}
+	if hitTop == 0 && os.Getenv("C14DBG") != "" {
+		t0, _ := writeTL2(v)
+		fmt.Fprintf(os.Stderr, "nohit %s region=%d over=%d nplanters=%d len=%d head=%x\n", key, region, over, len(ps), len(t0), t0[:min(12, len(t0))])
+	}
+	if hitTop > 0 {
+		h.Stat("tl2.body-exactly-at-boundary", int64(hitTop))
+		h.NonTrivial("tl2-body-boundary")
+	}
+}
+
 // ---------------------------------------------------------------- main
 
 func main() {
@@ -943,9 +1356,13 @@ func main() {
 		bigLeft = 9
 	}
 	h.Cases(func(i int, r *verifx.Rng) {
+		if i%16 == 15 {
+			c.tl2Case(i/16, r, items)
+			return
+		}
 		if i%8 == 7 {
 			big := false
-			if bigLeft > 0 && i%64 == 63 {
+			if bigLeft > 0 && i%64 == 39 {
 				big = true
 				bigLeft--
 				bigIdx++
